@@ -37,7 +37,7 @@ def read_status(path):
 
 def _asan_env(env):
     e = dict(os.environ)
-    e.setdefault("ASAN_OPTIONS", "detect_leaks=0:exitcode=97:abort_on_error=0:allocator_may_return_null=1:detect_stack_use_after_return=0:handle_segv=1")
+    e.setdefault("ASAN_OPTIONS", "detect_leaks=0:exitcode=97:abort_on_error=0:halt_on_error=0:allocator_may_return_null=1:detect_stack_use_after_return=0:handle_segv=1")
     e.setdefault("UBSAN_OPTIONS", "print_stacktrace=0")
     e.setdefault("TSAN_OPTIONS", "exitcode=96:halt_on_error=1")
     if env:
@@ -67,6 +67,15 @@ def run_only(exe, tier, idx, env=None, case_timeout=None, extra=()):
         kind = classify_exit(rc, se)
         return (kind, desc, first_report_line(se))
     return fail
+
+
+def describe(exe, tier, idx, env=None, extra=()):
+    r = subprocess.run([exe, "--tier", tier, "--only", str(idx), "--describe"] + list(extra), stdout=subprocess.PIPE, stderr=subprocess.DEVNULL, env=_asan_env(env))
+    for ln in r.stdout.decode(errors="replace").splitlines():
+        p = ln.split("\t")
+        if p[0] == "CASE" and len(p) >= 3:
+            return p[2]
+    return "idx=%d" % idx
 
 
 def classify_exit(rc, stderr):
@@ -172,7 +181,12 @@ def run_driver(exe, tier, prop, nshards=None, deadline=None, env=None, case_time
     if limit is not None and limit < ncases:
         exhaustive = False
     # attribute crashes: replay each twice in a fresh process; both must reproduce identically
+    per_kind = {}
     for idx, kind, msg in crashes:
+        per_kind[kind] = per_kind.get(kind, 0) + 1
+        if per_kind[kind] > 8:  # same failure kind many times: the first 8 were replayed twice each; the rest are attributed by the status page only
+            fails.append((idx, kind, describe(exe, tier, idx, env, extra), msg + " (attributed from the status page, not re-run)"))
+            continue
         ct = case_timeout * 20 if kind == "hang" else case_timeout
         r1 = run_only(exe, tier, idx, env, ct, extra)
         r2 = run_only(exe, tier, idx, env, ct, extra)
